@@ -204,12 +204,12 @@ func tokenOptions(o *CoreOptions, r *rand.Rand) {
 	o.TightTmo = 30
 }
 
-// genesisRestartTokens turns a third of the token worlds into worlds whose chains are restarted
+// genesisRestartTokens turns half of the token worlds into worlds whose chains are restarted
 // through genesis export/import and keep running afterwards: no IBC v2 clients (their import is
 // refused, C44 known finding) and no v2-over-alias traffic (its state is dropped, C44 known
 // findings), so that everything the ICS-20 model relies on must survive the restart.
 func genesisRestartTokens(o *CoreOptions, r *rand.Rand) {
-	if r.Intn(3) != 0 {
+	if r.Intn(2) != 0 {
 		return
 	}
 	o.Kinds = []string{"none"}
@@ -445,7 +445,7 @@ func init() {
 		})
 	coreCheck("C33",
 		"token worlds biased to round trips: every voucher a user holds tends to be sent back over the channel it came from (also after onward hops), for native denominations drawn from the '/'-segment grammar. Oracle: a returning voucher must be accepted (valid receiver) and the origin must release exactly the original native denomination from that channel's escrow to the receiver (bank diff vs model); after the drain no return is stuck. Non-trivial case = distinct (route kind, released denomination shape)",
-		[]string{"return:"}, 96, 1400,
+		[]string{"return:"}, 240, 2400,
 		func(o *CoreOptions, r *rand.Rand, tier string) {
 			tokenOptions(o, r)
 			o.TightTmo = 10
